@@ -31,6 +31,9 @@ SCAFFOLD = [('S', {
     'E1': '=LEFT(A1,B1)', 'F1': '=RIGHT(A1,B1)', 'G1': '=MID(A1,B1,C1)', 'H1': '=LEFT(A1)', 'I1': '=RIGHT(A1)',
     'J1': '=LEFT(A1,B1)&MID(A1,B1+1,D1)',
     # arguments that are expressions / bracketed / read through a formula cell
+    # the text argument is a cell that was never written (blank: it behaves as the empty text)
+    'AH1': '=LEFT(AZ9,B1)', 'AI1': '=RIGHT(AZ9,B1)', 'AJ1': '=MID(AZ9,B1,C1)', 'AK1': '=RIGHT(AZ9)', 'AL1': '=LEFT(AZ9)',
+    'AM1': '=LEFT(AZ9,1)&RIGHT(AZ9,B1)&"|"',
     # the text argument is an operator expression that starts with a cell reference
     'AC1': '=LEFT(A1&"zq",B1)', 'AD1': '=RIGHT("zq"&A1,B1)', 'AE1': '=MID(A1&"zq",B1,C1)', 'AF1': '=LEFT(A1&A1,B1)', 'AG1': '=RIGHT(A1&"zq",B1)',
     'X1': '=A1', 'Y1': '=LEFT(A1&"",B1+0)', 'Z1': '=RIGHT((A1),(B1))', 'AA1': '=MID(X1,B1*1,C1+0)', 'AB1': '=LEFT(X1,B1)&""',
@@ -231,6 +234,20 @@ def run_slice_ov(cases, stats):
         L = len(t)
         o = S.run(cls, [('A1', t)], ['H1', 'I1'], stats)
         judge_slices(t, None, {'LEFT': o[0], 'RIGHT': o[1]}, 'ov', stats, i, vio)
+        if t == '':
+            # the same slices of a blank cell
+            o = S.run(cls, [], ['AL1', 'AK1'], stats)
+            judge_slices('', None, {'LEFT': o[0], 'RIGHT': o[1]}, 'blank-cell', stats, i, vio)
+            for n in range(-1, 3):
+                o = S.run(cls, [('B1', n)], ['AH1', 'AI1', 'AM1'], stats)
+                judge_slices('', n, {'LEFT': o[0], 'RIGHT': o[1]}, 'blank-cell', stats, i, vio)
+                if n >= 0:
+                    stats['validated'] += 1
+                    if not same('|', o[2]):
+                        _v(vio, i, {'func': 'LEFT&RIGHT', 'src': 'blank-cell', 'chars': [], 'count': 'zero' if n == 0 else 'inner'}, o[2], '|')
+                for k in range(-1, 3):
+                    o, = S.run(cls, [('B1', k), ('C1', n)], ['AJ1'], stats)
+                    judge_mid('', k, n, o, 'blank-cell', stats, i, vio)
         for n in range(-1, L + 3):
             o = S.run(cls, [('A1', t), ('B1', n)], ['E1', 'F1', 'Y1', 'Z1', 'AB1'], stats)
             stats['cases'] += 1
